@@ -276,18 +276,36 @@ def cpu_limit(seconds):
         signal.signal(signal.SIGVTALRM, old)
 
 
-def replay_impl(t, charsub, reserved, history, sp, limit=1.5, spec=None):
+@contextlib.contextmanager
+def _armed_cpu_limit(seconds):
+    """cpu_limit for callers that already installed the SIGVTALRM handler and an outer core.time_limit
+    (the search loop): two system calls per case instead of eight."""
+    signal.setitimer(signal.ITIMER_VIRTUAL, seconds)
+    try:
+        yield
+    finally:
+        signal.setitimer(signal.ITIMER_VIRTUAL, 0)
+
+
+@contextlib.contextmanager
+def _both_limits(seconds):
+    with core.time_limit(120.0), cpu_limit(seconds):
+        yield
+
+
+def replay_impl(t, charsub, reserved, history, sp, limit=1.5, spec=None, armed=False):
     """Replay a history on a fresh object.  -> (results, dump, passes, invariant error or None)"""
     from plasTeX.Filenames import Filenames
     if spec is None:
         spec = print_template(t, sp)
+    guard = _armed_cpu_limit if armed else _both_limits
     cs = CHARSUBS[charsub]
     inv = dict((n, None) for n in reserved) or None
     results = []
     bad = None
     seen = set()
     try:
-        with core.time_limit(120.0), cpu_limit(limit):
+        with guard(limit):
             fn = Filenames(spec, list(cs) if cs else None, dict(INIT), EXT, inv)
             for ev in history:
                 for k, v in bindings(ev).items():
@@ -312,7 +330,7 @@ def replay_impl(t, charsub, reserved, history, sp, limit=1.5, spec=None):
     except (core.Timeout, _CpuTimeout):
         if limit < 10:
             # confirm with a generous limit before calling it non-termination
-            return replay_impl(t, charsub, reserved, history, sp, limit=8.0, spec=spec)
+            return replay_impl(t, charsub, reserved, history, sp, limit=8.0, spec=spec, armed=armed)
         results.append('timeout')
         return results, ('timeout',), 0, 'request %d did not terminate within %.1f s of CPU time' % (len(results), limit)
     return results, dump, passes, bad
@@ -443,9 +461,12 @@ def run_block(block):
     import time, gc
     cpu0 = time.process_time()
     gc.disable()        # the search creates no reference cycles; a full collection over 10^5 states would
+    old = signal.signal(signal.SIGVTALRM, _vtalarm)
     try:                # look like a hanging request to the CPU-time alarm
         rep = _search(block)
     finally:
+        signal.setitimer(signal.ITIMER_VIRTUAL, 0)
+        signal.signal(signal.SIGVTALRM, old)
         gc.enable()
     # CPU time is recorded as evidence only (the machine may be shared); it never steers the exploration
     rep.count('cpu_ms', int((time.process_time() - cpu0) * 1000))
@@ -474,78 +495,80 @@ def _search(block):
     for level in range(depth):
         nxt = []
         for hist, models, obs_before in frontier:
-            for ei in range(len(events)):
-                ev = events[ei]
-                h2 = hist + (ev,)
-                obs, dump, passes, bad = replay_impl(t, charsub, reserved, h2, sp, spec=spec)
-                rep.traces += 1
-                rep.transitions += 1
-                strict_before = models[0][1] if models and models[0][0] == 0 else None
-                nontrivial = True if strict_before is None else past_static(cfg, strict_before)
-                rep.case(key=hash((cfgh, h2)), nontrivial=nontrivial, outcome=hash((cfgh, tuple(obs))))
-                if not bad and tuple(obs[:-1]) != obs_before:
-                    rep.violation(make_case(block, h2), list(obs_before), obs[:-1],
-                                  'replaying the same prefix on a fresh object gave different results')
-                    continue
-                if bad:
-                    exp = M.run(cfg, 0, [bindings(e) for e in h2])
-                    rep.violation(make_case(block, h2), exp, obs, bad)
-                    if obs[-1] == 'timeout':
-                        timeouts += 1
-                        if timeouts >= 3:
-                            rep.count('block_aborted_after_timeouts')
-                            return rep.close_block()
-                    continue
-                if not long_family and passes >= 60:
-                    rep.error('pass counter reached %d inside the depth bound: %r' % (passes, make_case(block, h2)))
-                last = obs[-1]
-                new_models = []
-                b = ev_b[ei]
-                for d, st in models:
-                    mk = (d, st, ei)
-                    rs = memo.get(mk)
-                    if rs is None:
-                        r, st2 = M.request(cfg, d, st, b)
-                        if len(memo) > MEMO_MAX:
-                            memo.clear()
-                        rs = memo[mk] = (r, intern.setdefault(st2, st2))    # equal states share one object
-                    r, st2 = rs
-                    if r == last:
-                        new_models.append((d, st2))
-                if not new_models:
-                    exp = M.run(cfg, 0, [bindings(e) for e in h2])
-                    rep.violation(make_case(block, h2), exp, obs,
-                                  'request %d differs from the statement-derived model and from every named deviation'
-                                  % len(h2))
-                    continue            # the history ends at a violation
-                d0 = pick([d for d, _ in new_models])   # minimal surviving explanation
-                if d0 == 0:
-                    rep.count('ok')
-                else:
-                    case = make_case(block, h2)
-                    for f in fids_of(d0):
-                        rep.known_finding(f, case, 'results equal the model with %s' % '+'.join(fids_of(d0)))
-                if isinstance(last, str) and last not in ('ValueError', 'IndexError'):
-                    rep.count('issued')
-                elif last is None:
-                    rep.count('result_None')
-                else:
-                    rep.count('result_' + last)
-                if level >= 3 and len(t['alts']) >= 2 and len(rep.samples) < rep.MAX_SAMPLES and ei % 7 == 3:
-                    rep.sample({'template': print_template(t, sp), 'charsub': charsub, 'reserved': reserved,
-                                'requests': [bindings(e) for e in h2], 'results': obs})
-                if dump == FINISHED:
-                    # the generator is exhausted: every later result is None, which only a model in its DEAD
-                    # state predicts; the other survivors cannot survive another request, so they are not
-                    # carried along (and do not keep equal states apart)
-                    new_models = [(d, st) for d, st in new_models if st == M.DEAD]
-                key = (dump, tuple(new_models))
-                if key in seen:
-                    rep.count('merged')
-                    continue
-                seen.add(key)
-                rep.states += 1
-                nxt.append((h2, tuple(new_models), tuple(obs)))
+            # wall-clock guard around the <= 25 cases of one expansion; each case has its own CPU-time limit
+            with core.time_limit(600.0):
+                for ei in range(len(events)):
+                    ev = events[ei]
+                    h2 = hist + (ev,)
+                    obs, dump, passes, bad = replay_impl(t, charsub, reserved, h2, sp, spec=spec, armed=True)
+                    rep.traces += 1
+                    rep.transitions += 1
+                    strict_before = models[0][1] if models and models[0][0] == 0 else None
+                    nontrivial = True if strict_before is None else past_static(cfg, strict_before)
+                    rep.case(key=hash((cfgh, h2)), nontrivial=nontrivial, outcome=hash((cfgh, tuple(obs))))
+                    if not bad and tuple(obs[:-1]) != obs_before:
+                        rep.violation(make_case(block, h2), list(obs_before), obs[:-1],
+                                      'replaying the same prefix on a fresh object gave different results')
+                        continue
+                    if bad:
+                        exp = M.run(cfg, 0, [bindings(e) for e in h2])
+                        rep.violation(make_case(block, h2), exp, obs, bad)
+                        if obs[-1] == 'timeout':
+                            timeouts += 1
+                            if timeouts >= 3:
+                                rep.count('block_aborted_after_timeouts')
+                                return rep.close_block()
+                        continue
+                    if not long_family and passes >= 60:
+                        rep.error('pass counter reached %d inside the depth bound: %r' % (passes, make_case(block, h2)))
+                    last = obs[-1]
+                    new_models = []
+                    b = ev_b[ei]
+                    for d, st in models:
+                        mk = (d, st, ei)
+                        rs = memo.get(mk)
+                        if rs is None:
+                            r, st2 = M.request(cfg, d, st, b)
+                            if len(memo) > MEMO_MAX:
+                                memo.clear()
+                            rs = memo[mk] = (r, intern.setdefault(st2, st2))    # equal states share one object
+                        r, st2 = rs
+                        if r == last:
+                            new_models.append((d, st2))
+                    if not new_models:
+                        exp = M.run(cfg, 0, [bindings(e) for e in h2])
+                        rep.violation(make_case(block, h2), exp, obs,
+                                      'request %d differs from the statement-derived model and from every named deviation'
+                                      % len(h2))
+                        continue            # the history ends at a violation
+                    d0 = pick([d for d, _ in new_models])   # minimal surviving explanation
+                    if d0 == 0:
+                        rep.count('ok')
+                    else:
+                        case = make_case(block, h2)
+                        for f in fids_of(d0):
+                            rep.known_finding(f, case, 'results equal the model with %s' % '+'.join(fids_of(d0)))
+                    if isinstance(last, str) and last not in ('ValueError', 'IndexError'):
+                        rep.count('issued')
+                    elif last is None:
+                        rep.count('result_None')
+                    else:
+                        rep.count('result_' + last)
+                    if level >= 3 and len(t['alts']) >= 2 and len(rep.samples) < rep.MAX_SAMPLES and ei % 7 == 3:
+                        rep.sample({'template': print_template(t, sp), 'charsub': charsub, 'reserved': reserved,
+                                    'requests': [bindings(e) for e in h2], 'results': obs})
+                    if dump == FINISHED:
+                        # the generator is exhausted: every later result is None, which only a model in its DEAD
+                        # state predicts; the other survivors cannot survive another request, so they are not
+                        # carried along (and do not keep equal states apart)
+                        new_models = [(d, st) for d, st in new_models if st == M.DEAD]
+                    key = (dump, tuple(new_models))
+                    if key in seen:
+                        rep.count('merged')
+                        continue
+                    seen.add(key)
+                    rep.states += 1
+                    nxt.append((h2, tuple(new_models), tuple(obs)))
         frontier = nxt
         if rep.states > STATE_CAP and level + 1 < depth:
             rep.count('blocks_capped')
